@@ -108,6 +108,13 @@ def c16_1(c: Ctx) -> None:
                    'cancellation (an await in `finally`, a swallowed CancelledError) keeps stop() blocked without bound (asyncio.wait({task}, timeout) returns at the deadline)', node=a)
         elif isinstance(v, ast.Call) and U(v.func) in ('asyncio.wait', 'asyncio.wait_for'):
             to = q.kw(v, 'timeout')
+            if isinstance(to, ast.Name):
+                # a new keyword parameter of stop() with a numeric default (a configurable grace period): the wait is bounded by a number either way; read at its default
+                from .common import at_new_defaults
+
+                to2, fixed = at_new_defaults(c, u, to)
+                if fixed and isinstance(to2, ast.Constant):
+                    to = to2
             const_attr = None
             if isinstance(to, ast.Attribute) and isinstance(to.value, ast.Name) and to.value.id == u.params()[0]:
                 # a class-level numeric constant that nothing assigns
